@@ -761,4 +761,60 @@ Section Registry.
     - destruct (wexec_other _ _ _ _ _ _ Hs ltac:(discriminate) ltac:(discriminate) H) as [_ Hb]. apply cnotifs_only_bal, Hb.
     - destruct (wexec_other _ _ _ _ _ _ Hs ltac:(discriminate) ltac:(discriminate) H) as [_ Hb]. apply cnotifs_only_bal, Hb.
   Qed.
+
+  (** *** Order of an owner's listing: ascending ids *)
+  Lemma SS_filter {A} (R : A -> A -> Prop) (f : A -> bool) l :
+    StronglySorted R l -> StronglySorted R (List.filter f l).
+  Proof.
+    induction 1 as [|x l Hs IH Hf]; cbn; [constructor|].
+    destruct (f x); [|exact IH]. constructor; [exact IH|].
+    apply List.Forall_forall. intros y Hy. apply filter_In in Hy as [Hy _].
+    eapply List.Forall_forall in Hf; eauto.
+  Qed.
+
+  Lemma bytes_leb_app_l (o a b : bytes) : bytes_leb (o ++ a) (o ++ b) = bytes_leb a b.
+  Proof.
+    induction o as [|x o IH]; [reflexivity|]. cbn. rewrite N.ltb_irrefl, N.eqb_refl. exact IH.
+  Qed.
+
+  Lemma is_prefix_same_len (p o : bytes) : length p = length o -> is_prefix p o = true -> p = o.
+  Proof.
+    revert o. induction p as [|x p IH]; intros [|y o] Hl H; try discriminate; [reflexivity|].
+    cbn in H. apply andb_true_iff in H as [H1 H2]. apply N.eqb_eq in H1. subst y.
+    f_equal. apply IH; [cbn in Hl; lia|exact H2].
+  Qed.
+
+  Lemma containers_of_sorted cs o :
+    CInv cs -> length o = 25%nat -> Sorted bytes_le (containers_of cs o).
+  Proof.
+    intros HI Hl. apply StronglySorted_Sorted.
+    unfold containers_of, find_vals.
+    assert (Hss : StronglySorted bytes_le (fst <$> List.filter (fun kv => is_prefix o (fst kv)) (sentries (oidx cs)))).
+    { assert (Hk : StronglySorted bytes_le (skeys (oidx cs))).
+      { apply Sorted_StronglySorted; [intros x y z; apply bytes_le_trans|apply Sorted_skeys]. }
+      rewrite <- sentries_fst in Hk.
+      revert Hk. generalize (sentries (oidx cs)). intros l Hk.
+      induction l as [|[k v] l IH]; cbn; [constructor|].
+      cbn in Hk. apply StronglySorted_inv in Hk as [Hk1 Hk2].
+      destruct (is_prefix o k); [|apply IH; exact Hk1].
+      cbn. constructor; [apply IH; exact Hk1|].
+      apply List.Forall_forall. intros y Hy. apply in_map_iff in Hy as ([k' v'] & <- & Hy).
+      apply filter_In in Hy as [Hy _]. eapply List.Forall_forall in Hk2; [exact Hk2|].
+      apply in_map_iff. exists (k', v'). auto. }
+    assert (Hkeys : forall kv, In kv (List.filter (fun kv => is_prefix o (fst kv)) (sentries (oidx cs))) ->
+                    fst kv = o ++ snd kv).
+    { intros [k v] Hin. apply filter_In in Hin as [Hin Hp]. cbn in *.
+      apply elem_of_list_In, elem_of_sentries in Hin.
+      destruct (ci_idx _ HI _ _ Hin) as (c & o' & _ & Ho' & ->).
+      rewrite is_prefix_app_short in Hp by (rewrite (owner_is_len _ _ Ho'); lia).
+      apply is_prefix_same_len in Hp; [congruence|]. rewrite (owner_is_len _ _ Ho'). exact Hl. }
+    revert Hss Hkeys. generalize (List.filter (fun kv => is_prefix o (fst kv)) (sentries (oidx cs))).
+    intros l Hss Hkeys. induction l as [|[k v] l IH]; cbn; [constructor|].
+    cbn in Hss. apply StronglySorted_inv in Hss as [Hs1 Hs2].
+    constructor; [apply IH; [exact Hs1|intros kv Hkv; apply Hkeys; right; exact Hkv]|].
+    apply List.Forall_forall. intros y Hy. apply in_map_iff in Hy as ([k' v'] & <- & Hy). cbn.
+    pose proof (Hkeys (k, v) ltac:(left; reflexivity)) as E1. pose proof (Hkeys (k', v') ltac:(right; exact Hy)) as E2.
+    cbn in E1, E2. eapply List.Forall_forall in Hs2; [|apply in_map_iff; exists (k', v'); split; [reflexivity|exact Hy]].
+    cbn in Hs2. unfold bytes_le in *. rewrite E1, E2, bytes_leb_app_l in Hs2. exact Hs2.
+  Qed.
 End Registry.
